@@ -231,7 +231,7 @@ func GenStopAfterUnnoticedLossPlan(t *rapid.T, profile string) *Plan {
 //     leadership check and the load of the revision it refreshes against, while a higher-priority instance
 //     takes the record over and the watcher records the successor's revision.
 func GenStallPlan(t *rapid.T, profile string) *Plan {
-	shape := rapid.IntRange(0, 3).Draw(t, "stall_shape")
+	shape := rapid.IntRange(0, 4).Draw(t, "stall_shape")
 	if v := os.Getenv("VERIF_STALL_SHAPE"); v != "" { // (development aid)
 		shape = int(v[0] - '0')
 	}
@@ -268,6 +268,32 @@ func GenStallPlan(t *rapid.T, profile string) *Plan {
 			p.Stalls = append(p.Stalls, Stall{Inst: rapid.IntRange(0, len(p.Instances)-1).Draw(t, "stall_inst"), Point: PointAcquireAdopt, N: rapid.IntRange(0, 4).Draw(t, "stall_n"),
 				D: time.Duration(rapid.Int64Range(int64(time.Microsecond), int64(300*time.Millisecond)).Draw(t, "stall"))})
 		}
+		return p
+	}
+	if shape == 4 {
+		// failed-acquisition-vs-adoption: the answer to run 1's Create is slow; the election is stopped and, while the stop
+		// call is still waiting for that answer, started again; run 2's own Create is refused (the key holds run 1's
+		// record), and its acquisition is held between "do I lead?" and settling as a follower while the slow
+		// answer arrives and is adopted
+		h := rapid.SampledFrom([]time.Duration{200 * time.Millisecond, 400 * time.Millisecond}).Draw(t, "H")
+		p := &Plan{Profile: profile + "/stall-failed-acquisition-vs-adoption", H: h, TTL: 3 * h, SnapEvery: odd(h/3 + 47*time.Microsecond), Dice: []float64{0}}
+		slow := time.Duration(rapid.Int64Range(int64(150*time.Millisecond), int64(2*h)).Draw(t, "slow_answer"))
+		p.Instances = []Inst{{ID: "A", Group: "g", Lat: []time.Duration{1, 3}, Promote: rapid.SampledFrom([]int{0, 1, 2}).Draw(t, "promote"),
+			Rules: []OpRule{{Kind: OpCreate, N: 0, SetLat: true, ReqLat: 1, RespLat: slow}}}}
+		t1 := odd(time.Duration(rapid.Int64Range(int64(time.Millisecond), int64(slow/3)).Draw(t, "t_stop")))
+		t2 := t1 + odd(time.Duration(rapid.Int64Range(int64(time.Millisecond), int64(slow/3)).Draw(t, "t_restart")))
+		// (Stop waits for run 1's acquisition goroutine, i.e. for the slow answer; the restart comes from another
+		// goroutine of the application during that wait)
+		p.Timeline = []Action{{At: 1, Kind: ActStart, Inst: 0},
+			{At: t1, Kind: ActStop, Inst: 0},
+			{At: t2, Kind: ActStart, Inst: 0, Overlap: true}}
+		p.Stalls = []Stall{{Inst: 0, Point: PointFailedFollow, N: rapid.IntRange(0, 1).Draw(t, "stall_n"), D: slow + time.Duration(rapid.Int64Range(int64(time.Millisecond), int64(h)).Draw(t, "stall"))}}
+		if rapid.Bool().Draw(t, "second") {
+			p.Instances = append(p.Instances, Inst{ID: "B", Group: "g", Lat: []time.Duration{5, 7}})
+			p.Timeline = append(p.Timeline, Action{At: odd(h / 2), Kind: ActStart, Inst: 1})
+		}
+		p.Horizon = t2 + slow + 8*h + p.TTL + 2*time.Second
+		sortTimeline(p)
 		return p
 	}
 	if shape == 3 {
